@@ -22,7 +22,7 @@ from pyvc import run as RUN  # noqa
 from pyvc import lemmas as LEM  # noqa
 import pyvc.pandas_model  # noqa  (registers the assumed pandas contracts)
 
-CONTRACT_MODULES = ['filter_utils', 'generic_helper', 'validation']
+CONTRACT_MODULES = ['filter_utils', 'generic_helper', 'validation', 'profiler']
 
 
 def load_contracts():
@@ -148,7 +148,11 @@ def check_property(pid, tier='quick', seed=0):
     exit_code = 0
     os.makedirs(os.path.join(HERE, 'replays'), exist_ok=True)
     seen_known = set()
+    seen_names = set()
     for r in failing:
+        if r['name'] in seen_names and not match_known(known, pid, r['name']):
+            continue
+        seen_names.add(r['name'])
         k = match_known(known, pid, r['name'])
         if k is not None:
             known_hit.append(dict(finding=k['id'], obligation=r['name']))
